@@ -132,10 +132,10 @@ Compare(op, a, b) ==    \* a, b numeric
 BinOp(op, a, b) ==
     CASE op = "+" ->
             IF a.k = "str" THEN (IF b.k # "str" THEN Err("type")
-                                 ELSE IF Len(a.v) + Len(b.v) > 4096 THEN Err("UNREP")
+                                 ELSE IF Len(a.v) + Len(b.v) > 4096 THEN Err("TOOBIG")
                                  ELSE Ok(VStr(a.v \o b.v)))
             ELSE IF a.k = "arr" THEN (IF b.k # "arr" THEN Err("type")
-                                      ELSE IF Len(a.e) + Len(b.e) > 2048 THEN Err("UNREP")      \* (a program that doubles a value in a loop: beyond what TLC holds)
+                                      ELSE IF Len(a.e) + Len(b.e) > 2048 THEN Err("TOOBIG")     \* (a program that doubles a value in a loop: beyond what TLC holds)
                                       ELSE Ok(VArr(a.e \o b.e)))
             ELSE IF IsNum(a) /\ IsNum(b) THEN Arith(op, a, b) ELSE Err("type")
       [] op \in {"-", "*", "/", "%"} -> IF IsNum(a) /\ IsNum(b) THEN Arith(op, a, b) ELSE Err("type")
@@ -466,10 +466,14 @@ Switch(s, v, sc, fuel, i) ==
 Run(p) ==
     LET sc0 == <<[n \in {p.vars[i].n : i \in 1..Len(p.vars)} |-> (CHOOSE x \in {p.vars[i] : i \in 1..Len(p.vars)} : x.n = n).v]>>
         r == ExecBlock(p.body, sc0, MaxFuel, 1) IN
-    CASE r.ctl = "error" -> (IF r.val \in {"UNREP", "OPAQUE"} THEN [kind |-> "unrep"] ELSE [kind |-> "error", class |-> r.val])
+    \* "toobig": the program grows a string or array beyond what the definition holds (typically by doubling it in a
+    \* loop); such programs are not run on the engines either - nothing bounds the memory an evaluation may take
+    CASE r.ctl = "error" -> (IF r.val = "TOOBIG" THEN [kind |-> "toobig"] ELSE IF r.val \in {"UNREP", "OPAQUE"} THEN [kind |-> "unrep"] ELSE [kind |-> "error", class |-> r.val])
       [] r.ctl \in {"return", "next"} ->
             \* a block that ran into the iteration limit and was never awaited is still spinning when the route answers
-            IF \E i \in 1..Len(r.sc) : \E n \in DOMAIN r.sc[i] : r.sc[i][n].k = "fut" /\ ~r.sc[i][n].r.ok /\ r.sc[i][n].r.err = "limit"
+            IF \E i \in 1..Len(r.sc) : \E n \in DOMAIN r.sc[i] : r.sc[i][n].k = "fut" /\ ~r.sc[i][n].r.ok /\ r.sc[i][n].r.err = "TOOBIG"
+              THEN [kind |-> "toobig"]
+            ELSE IF \E i \in 1..Len(r.sc) : \E n \in DOMAIN r.sc[i] : r.sc[i][n].k = "fut" /\ ~r.sc[i][n].r.ok /\ r.sc[i][n].r.err = "limit"
               THEN [kind |-> "unrep"]
               ELSE [kind |-> "value", v |-> r.val, st |-> r.st]
       [] r.ctl \in {"break", "continue"} -> [kind |-> "error", class |-> "loopctl"]     \* break/continue outside a loop
@@ -568,7 +572,7 @@ Next == Step
 Spec == Init /\ [][Next]_vars
 
 \* the definition is total and deterministic on every program: Run yields exactly one outcome
-Total == result.kind \in {"pending", "value", "error", "unrep"}
+Total == result.kind \in {"pending", "value", "error", "unrep", "toobig"}
 \* scope discipline: a body ends with exactly the outermost scope left (checked inside Run by Pop/Push pairing)
 EmitInv == (result.kind # "pending") =>
     PrintT(<<"CASE", ToJson([id |-> Progs[pi].id, src |-> Src(Progs[pi]), pre |-> Pre(Progs[pi]), out |-> result])>>)
